@@ -375,4 +375,44 @@ def inoOf (d : Disk) (n : Name) (ext : String) : Option Nat :=
   if ext = "part" then d.part n else if ext = "full" then d.full n
   else if ext = "wait" then d.wait n else none
 
+/-- One element of the query `Stage.Received(parts)`: a part of a file version. -/
+structure PartQ where
+  n : Name
+  m : Meta
+  beg : Int
+  fin : Int
+  /-- the file time the part announces (how far back partReceived extends the cache) -/
+  ftime : Int := 0
+deriving Repr, DecidableEq
+
+/-- `Stage.Received(parts)`: the number of LEADING parts that are answered "received"; the loop
+    stops at the first part that is not (the sender drops exactly that many parts from the front
+    of the payload and sends the rest again). `ask` is one `partReceived` (answer, state after). -/
+def receivedCount (ask : State → PartQ → Bool × State) : State → List PartQ → Nat × State
+  | s, [] => (0, s)
+  | s, q :: qs =>
+    match ask s q with
+    | (false, s') => (0, s')
+    | (true, s') => let r := receivedCount ask s' qs; (r.1 + 1, r.2)
+
+/-- one `partReceived` at time `now`: extend the cache back to the announced file time, answer,
+    lock bookkeeping -/
+def askPart (now : Int) (s : State) (q : PartQ) : Bool × State :=
+  let s1 := run s (buildCacheEffects s (receivedFrom q.ftime now) now)
+  (receivedAnswer s1 q.n q.m q.beg q.fin, run s1 (receivedEffects s1 q.n q.m))
+
+/-- the state in which the `i`-th part of the query is asked -/
+def askState (ask : State → PartQ → Bool × State) : State → List PartQ → Nat → State
+  | s, _, 0 => s
+  | s, [], _ + 1 => s
+  | s, q :: qs, i + 1 => askState ask (ask s q).2 qs i
+
+/-- what a "count every part that is on record" loop would answer (NOT the code: witness only) -/
+def receivedCountAll (ask : State → PartQ → Bool × State) : State → List PartQ → Nat × State
+  | s, [] => (0, s)
+  | s, q :: qs =>
+    let a := ask s q
+    let r := receivedCountAll ask a.2 qs
+    (if a.1 then r.1 + 1 else r.1, r.2)
+
 end Sts.Stage
